@@ -92,7 +92,11 @@ pub fn generate(ftr: &FilesToRead, call_no: usize, want_abs: bool) -> GenResult 
     if let Some(d) = doc {
         let mut sink = CountingSink { buf: vec![], writes: 0 };
         let w = catch_unwind(AssertUnwindSafe(|| d.write_xml(&mut sink)));
-        let emits: Vec<Value> = zeep_lib::verif::take_events().iter().filter_map(|e| serde_json::from_str(e).ok()).collect();
+        let emit_lines = zeep_lib::verif::take_events();
+        let emits: Vec<Value> = emit_lines.iter().filter_map(|e| serde_json::from_str(e).ok()).collect();
+        if want_abs {
+            events.extend(emit_lines.iter().cloned());
+        }
         let (outcome, msg) = match w {
             Ok(Ok(())) => ("ok".to_string(), String::new()),
             Ok(Err(e)) => ("err".to_string(), e.to_string()),
